@@ -111,6 +111,29 @@ theorem targetOf_lt (s : St) (p : Nat) (h : s.players ≠ [] → s.cur < s.playe
   · assumption
   · exact h hne
 
+theorem inv_drainStep (c : Cfg) (s : St) (h : Inv s) : Inv (drainStep c s).1 := by
+  obtain ⟨h1, h2⟩ := h
+  simp only [drainStep]
+  split
+  · exact ⟨h1, h2⟩
+  · rename_i hne
+    have hc := h2 hne
+    split
+    · refine ⟨?_, fun _ => ?_⟩
+      · rw [ballStart_cur, setOn_cur]
+        rcases ballStart_dev c (setOn { s with dev := none } s.cur "extra_balls"
+          (.int (intVar (varsOf { s with dev := none } s.cur) "extra_balls" - 1))).1 s.cur with e | e
+        · exact Or.inr e
+        · exact Or.inl (by rw [e, setOn_dev])
+      · rw [ballStart_cur, ballStart_length, setOn_cur, setOn_players, modify_length]; exact hc
+    · split
+      · exact ⟨Or.inl rfl, fun hp => absurd rfl hp⟩
+      · refine ⟨?_, fun _ => ?_⟩
+        · rw [turnStart_cur]; exact turnStart_dev _ _ _ rfl
+        · rw [turnStart_cur, turnStart_length]
+          show (if s.cur + 1 < s.players.length then s.cur + 1 else 0) < s.players.length
+          split <;> omega
+
 theorem inv_step (c : Cfg) (s : St) (op : Op) (h : Inv s) : Inv (step c s op).1 := by
   obtain ⟨h1, h2⟩ := h
   cases op with
@@ -195,25 +218,23 @@ theorem inv_step (c : Cfg) (s : St) (op : Op) (h : Inv s) : Inv (step c s op).1 
     simp only [step]
     split
     · exact ⟨h1, h2⟩
-    · rename_i hne
-      have hc := h2 hne
-      split
-      · refine ⟨?_, fun _ => ?_⟩
-        · rw [ballStart_cur, setOn_cur]
-          rcases ballStart_dev c (setOn { s with dev := none } s.cur "extra_balls"
-            (.int (intVar (varsOf { s with dev := none } s.cur) "extra_balls" - 1))).1 s.cur with e | e
-          · exact Or.inr e
-          · exact Or.inl (by rw [e, setOn_dev])
-        · rw [ballStart_cur, ballStart_length, setOn_cur, setOn_players, modify_length]; exact hc
-      · split
-        · exact ⟨Or.inl rfl, fun hp => absurd rfl hp⟩
-        · refine ⟨?_, fun _ => ?_⟩
-          · rw [turnStart_cur]; exact turnStart_dev _ _ _ rfl
-          · rw [turnStart_cur, turnStart_length]
-            show (if s.cur + 1 < s.players.length then s.cur + 1 else 0) < s.players.length
-            split <;> omega
+    · exact inv_drainStep c s ⟨h1, h2⟩
   | endGame => exact ⟨Or.inl rfl, fun hp => absurd rfl hp⟩
-  | modeStop => exact ⟨Or.inl rfl, h2⟩
+  | modeStop =>
+    simp only [step]
+    split
+    · exact ⟨h1, h2⟩
+    · exact ⟨Or.inl rfl, h2⟩
+  | modeStopHold =>
+    simp only [step]
+    split <;> exact ⟨h1, h2⟩
+  | release =>
+    simp only [step]
+    split
+    · split
+      · exact inv_drainStep c _ ⟨Or.inl rfl, h2⟩
+      · exact ⟨Or.inl rfl, h2⟩
+    · exact ⟨h1, h2⟩
   | modeStart =>
     simp only [step]
     split
@@ -225,6 +246,8 @@ theorem inv_step (c : Cfg) (s : St) (op : Op) (h : Inv s) : Inv (step c s op).1 
         · rw [modeStart_cur, modeStart_length]; exact h2 (by assumption)
   | drainPre =>
     simp only [step]
+    split
+    · exact ⟨h1, h2⟩
     split
     · exact ⟨h1, h2⟩
     · rename_i hne
@@ -255,6 +278,21 @@ theorem dev_eq_cur {s : St} (h : Inv s) {p : Nat} (hp : s.dev = some p) : p = s.
   rcases h.1 with e | e
   · rw [e] at hp; cases hp
   · rw [e] at hp; cases hp; rfl
+
+theorem frame_drainStep (c : Cfg) (s : St) (q : Nat) (h1 : q ≠ s.cur) (h2 : q ≠ (drainStep c s).1.cur)
+    (hg : (drainStep c s).1.players ≠ []) : (drainStep c s).1.players[q]? = s.players[q]? := by
+  simp only [drainStep] at hg h2 ⊢
+  split
+  · rfl
+  · split
+    · rw [ballStart_other _ _ _ _ h1, setOn_players]
+      exact modify_get_other _ _ _ _ h1
+    · split
+      · rename_i hx; simp [*] at hg
+      · rename_i hp hx hy
+        simp only [hp, hx, hy, if_false] at h2
+        rw [turnStart_cur] at h2
+        rw [turnStart_other _ _ _ _ h2]
 
 /-- one request leaves the dictionary of every player who is neither up before nor after it (nor named explicitly by
 it) untouched -/
@@ -345,17 +383,23 @@ theorem frame_step (c : Cfg) (s : St) (op : Op) (h : Inv s) (q : Nat) (hq : q < 
     simp only [step] at hg h2 ⊢
     split
     · rfl
-    · split
-      · rw [ballStart_other _ _ _ _ h1, setOn_players]
-        exact modify_get_other _ _ _ _ h1
-      · split
-        · rename_i hx; simp [*] at hg
-        · rename_i hp hx hy
-          simp only [hp, hx, hy, if_false] at h2
-          rw [turnStart_cur] at h2
-          rw [turnStart_other _ _ _ _ h2]
+    · rename_i hh
+      simp only [hh] at hg h2
+      exact frame_drainStep c s q h1 h2 hg
   | endGame => simp [step] at hg
-  | modeStop => rfl
+  | modeStop => simp only [step]; split <;> rfl
+  | modeStopHold => simp only [step]; split <;> rfl
+  | release =>
+    simp only [step] at hg h2 ⊢
+    split
+    · rename_i hh
+      simp only [hh, if_true] at hg h2
+      split
+      · rename_i he
+        simp only [he, if_true] at hg h2
+        exact frame_drainStep c _ q h1 h2 hg
+      · rfl
+    · rfl
   | modeStart =>
     simp only [step]
     split
@@ -367,13 +411,17 @@ theorem frame_step (c : Cfg) (s : St) (op : Op) (h : Inv s) (q : Nat) (hq : q < 
     simp only [step] at hg h2 ⊢
     split
     · rfl
+    split
+    · rfl
     · split
       · rw [setOn_players, modify_get_other _ _ _ _ (by rw [modeStart_cur]; exact h1)]
         exact modeStart_other _ _ _ _ h1
       · split
-        · rename_i hx; simp [*] at hg
-        · rename_i hp hx hy
-          simp only [hp, hx, hy, if_false] at h2
+        · rename_i hh hp hx hy
+          rw [if_neg hh, if_neg hp, if_neg hx, if_pos hy] at hg
+          exact absurd rfl hg
+        · rename_i hh hp hx hy
+          rw [if_neg hh, if_neg hp, if_neg hx, if_neg hy] at h2
           rw [turnStart_cur] at h2
           rw [turnStart_other _ _ _ _ h2]
           exact modeStart_other _ _ _ _ h1
@@ -388,6 +436,17 @@ def quiet (c : Cfg) (q : Nat) : St → List Op → Prop
   | _, [] => True
   | s, op :: rest => q ≠ s.cur ∧ q ≠ (step c s op).1.cur ∧ (step c s op).1.players ≠ [] ∧ explicitTarget op ≠ some q ∧
       quiet c q (step c s op).1 rest
+
+theorem drainStep_length_mono (c : Cfg) (s : St) (hg : (drainStep c s).1.players ≠ []) :
+    s.players.length ≤ (drainStep c s).1.players.length := by
+  simp only [drainStep] at hg ⊢
+  split
+  · simp
+  · split
+    · simp [ballStart_length, setOn_players, modify_length]
+    · split
+      · rename_i hx; simp [*] at hg
+      · simp [turnStart_length]
 
 theorem step_length_mono (c : Cfg) (s : St) (op : Op) (hg : (step c s op).1.players ≠ []) :
     s.players.length ≤ (step c s op).1.players.length := by
@@ -424,13 +483,23 @@ theorem step_length_mono (c : Cfg) (s : St) (op : Op) (hg : (step c s op).1.play
     simp only [step] at hg ⊢
     split
     · simp
-    · split
-      · simp [ballStart_length, setOn_players, modify_length]
-      · split
-        · rename_i hx; simp [*] at hg
-        · simp [turnStart_length]
+    · rename_i hh
+      simp only [hh] at hg
+      exact drainStep_length_mono c s hg
   | endGame => simp [step] at hg
-  | modeStop => simp [step]
+  | modeStop => simp only [step]; split <;> simp
+  | modeStopHold => simp only [step]; split <;> simp
+  | release =>
+    simp only [step] at hg ⊢
+    split
+    · rename_i hh
+      simp only [hh, if_true] at hg
+      split
+      · rename_i he
+        simp only [he, if_true] at hg
+        exact drainStep_length_mono c _ hg
+      · simp
+    · simp
   | modeStart =>
     simp only [step]; split
     · simp
@@ -439,10 +508,14 @@ theorem step_length_mono (c : Cfg) (s : St) (op : Op) (hg : (step c s op).1.play
     simp only [step] at hg ⊢
     split
     · simp
+    split
+    · simp
     · split
       · simp [setOn_players, modify_length, modeStart_length]
       · split
-        · rename_i hx; simp [*] at hg
+        · rename_i hh hp hx hy
+          rw [if_neg hh, if_neg hp, if_neg hx, if_pos hy] at hg
+          exact absurd rfl hg
         · simp [turnStart_length, modeStart_length]
 
 end MpfVerif.Player
@@ -479,5 +552,220 @@ theorem loadAll_get (devs : List Dev) (m : Vars) (hn : (devs.map (·.key)).Nodup
       rw [ih _ hn.2 e]
       unfold loaded
       rw [get_put_other _ _ _ _ hk]
+
+end MpfVerif.Player
+
+namespace MpfVerif.Player
+
+/-- a held stop belongs to a running mode; a ball end only waits behind a held stop -/
+def HoldInv (s : St) : Prop := (s.hold = true → s.dev ≠ none) ∧ (s.ending = true → s.hold = true)
+
+theorem ballStart_hold (c : Cfg) (s : St) (i : Nat) :
+    (ballStart c s i).hold = s.hold ∧ (ballStart c s i).ending = s.ending := by
+  unfold ballStart; split <;> exact ⟨rfl, rfl⟩
+
+theorem turnStart_hold (c : Cfg) (s : St) (i : Nat) :
+    (turnStart c s i).1.hold = s.hold ∧ (turnStart c s i).1.ending = s.ending := by
+  unfold turnStart; simp only []
+  exact ⟨(ballStart_hold c _ i).1, (ballStart_hold c _ i).2⟩
+
+theorem drainStep_hold (c : Cfg) (s : St) (hh : s.hold = false) (he : s.ending = false) :
+    (drainStep c s).1.hold = false ∧ (drainStep c s).1.ending = false := by
+  simp only [drainStep]
+  split
+  · exact ⟨hh, he⟩
+  · split
+    · rw [(ballStart_hold c _ _).1, (ballStart_hold c _ _).2]; exact ⟨hh, he⟩
+    · split
+      · exact ⟨hh, he⟩
+      · rw [(turnStart_hold c _ _).1, (turnStart_hold c _ _).2]; exact ⟨hh, he⟩
+
+theorem holdInv_of_off {s : St} (hh : s.hold = false) (he : s.ending = false) : HoldInv s :=
+  ⟨fun h => (by rw [hh] at h; cases h), fun h => (by rw [he] at h; cases h)⟩
+
+theorem holdInv_step (c : Cfg) (s : St) (op : Op) (h : HoldInv s) : HoldInv (step c s op).1 := by
+  obtain ⟨h1, h2⟩ := h
+  have hoff : s.hold = false → s.ending = false := fun hh => by
+    cases he : s.ending with
+    | false => rfl
+    | true => rw [h2 he] at hh; cases hh
+  cases op with
+  | startGame =>
+    simp only [step]
+    split
+    · exact ⟨h1, h2⟩
+    · exact holdInv_of_off (turnStart_hold c _ 0).1 (turnStart_hold c _ 0).2
+  | addPlayer => simp only [step]; split <;> exact ⟨h1, h2⟩
+  | set k v => simp only [step]; split <;> exact ⟨h1, h2⟩
+  | add k d =>
+    simp only [step]; split
+    · exact ⟨h1, h2⟩
+    · split <;> exact ⟨h1, h2⟩
+  | setP p k v => simp only [step]; split <;> exact ⟨h1, h2⟩
+  | addP p k d =>
+    simp only [step]; split
+    · exact ⟨h1, h2⟩
+    · split <;> exact ⟨h1, h2⟩
+  | setMachine k v => simp only [step]; split <;> exact ⟨h1, h2⟩
+  | addMachine k d =>
+    simp only [step]; split
+    · exact ⟨h1, h2⟩
+    · split <;> exact ⟨h1, h2⟩
+  | wait n =>
+    simp only [step]; split
+    · exact ⟨h1, h2⟩
+    · rename_i p hp
+      exact ⟨fun _ => by simp [hp], h2⟩
+  | dev d code =>
+    simp only [step]; split
+    · exact ⟨h1, h2⟩
+    · rename_i p hp
+      split
+      · exact ⟨h1, h2⟩
+      · split
+        · exact ⟨h1, h2⟩
+        · exact ⟨fun _ => by simp [hp], h2⟩
+  | swap d1 d2 =>
+    simp only [step]; split
+    · exact ⟨h1, h2⟩
+    · rename_i p hp
+      exact ⟨fun _ => by simp [hp], h2⟩
+  | drain =>
+    simp only [step]; split
+    · rename_i hh
+      exact ⟨h1, fun _ => hh⟩
+    · rename_i hh
+      have hh' : s.hold = false := by simpa using hh
+      exact holdInv_of_off (drainStep_hold c s hh' (hoff hh')).1 (drainStep_hold c s hh' (hoff hh')).2
+  | endGame => exact holdInv_of_off rfl rfl
+  | modeStop =>
+    simp only [step]; split
+    · exact ⟨h1, h2⟩
+    · rename_i hh
+      have hh' : s.hold = false := by simpa using hh
+      exact holdInv_of_off hh' (hoff hh')
+  | modeStopHold =>
+    simp only [step]; split
+    · exact ⟨h1, h2⟩
+    · rename_i p hp
+      exact ⟨fun _ => by simp [hp], fun _ => rfl⟩
+  | release =>
+    simp only [step]; split
+    · split
+      · exact holdInv_of_off (drainStep_hold c _ rfl rfl).1 (drainStep_hold c _ rfl rfl).2
+      · exact holdInv_of_off rfl rfl
+    · exact ⟨h1, h2⟩
+  | modeStart =>
+    simp only [step]; split
+    · exact ⟨h1, h2⟩
+    · split
+      · exact ⟨h1, h2⟩
+      · rename_i hd
+        exact ⟨fun _ => by simp [modeStart], h2⟩
+  | drainPre =>
+    simp only [step]; split
+    · rename_i hh
+      exact ⟨h1, fun _ => hh⟩
+    · rename_i hh
+      have hh' : s.hold = false := by simpa using hh
+      have he' := hoff hh'
+      split
+      · exact ⟨h1, h2⟩
+      · split
+        · exact holdInv_of_off hh' he'
+        · split
+          · exact holdInv_of_off hh' he'
+          · exact holdInv_of_off ((turnStart_hold c _ _).1.trans hh') ((turnStart_hold c _ _).2.trans he')
+
+end MpfVerif.Player
+
+namespace MpfVerif.Player
+
+/-! events of devices that write through `Player.__setattr__`: all of them carry the number they were computed for -/
+
+theorem setVar_num (m : Vars) (num : Nat) (k : String) (v : Val) : ∀ e ∈ (setVar m num k v).2, e.num = num ∧ e.name = k := by
+  intro e he
+  unfold setVar at he
+  simp only [] at he
+  split at he
+  · simp at he; subst he; exact ⟨rfl, rfl⟩
+  · simp at he
+
+theorem devEv_num (d : Dev) (m : Vars) (num : Nat) (v : Val) : ∀ e ∈ devEv d m num v, e.num = num := by
+  intro e he
+  unfold devEv at he
+  split at he
+  · exact (setVar_num _ _ _ _ e he).1
+  · simp at he
+
+theorem loadEvs_num (devs : List Dev) (num : Nat) (m : Vars) : ∀ e ∈ loadEvs devs num m, e.num = num := by
+  induction devs generalizing m with
+  | nil => intro e he; simp [loadEvs] at he
+  | cons d r ih =>
+    intro e he
+    simp only [loadEvs, List.mem_append] at he
+    rcases he with he | he
+    · exact devEv_num _ _ _ _ e he
+    · exact ih _ e he
+
+theorem tickEvs_num (devs : List Dev) (num : Nat) (ls : List Loc) (m : Vars) : ∀ e ∈ tickEvs devs num ls m, e.num = num := by
+  induction devs generalizing ls m with
+  | nil => intro e he; simp [tickEvs] at he
+  | cons d r ih =>
+    intro e he
+    simp only [tickEvs] at he
+    split at he
+    · simp only [List.mem_append] at he
+      rcases he with he | he
+      · exact devEv_num _ _ _ _ e he
+      · exact ih _ _ e he
+    · exact ih _ _ e he
+
+theorem elapseEvs_num (devs : List Dev) (num n : Nat) (ls : List Loc) (m : Vars) :
+    ∀ e ∈ elapseEvs devs num n ls m, e.num = num := by
+  induction n generalizing ls m with
+  | zero => intro e he; simp [elapseEvs] at he
+  | succ n ih =>
+    intro e he
+    simp only [elapseEvs, List.mem_append] at he
+    rcases he with he | he
+    · exact tickEvs_num _ _ _ _ e he
+    · exact ih _ _ e he
+
+theorem ballStartEvs_num (c : Cfg) (s : St) (i : Nat) : ∀ e ∈ ballStartEvs c s i, e.num = i + 1 := by
+  intro e he
+  unfold ballStartEvs at he
+  split at he
+  · exact loadEvs_num _ _ _ e he
+  · simp at he
+
+theorem setOn_num (s : St) (i : Nat) (k : String) (v : Val) : ∀ e ∈ (setOn s i k v).2, e.num = i + 1 :=
+  fun e he => (setVar_num _ _ _ _ e he).1
+
+theorem turnStart_num (c : Cfg) (s : St) (i : Nat) : ∀ e ∈ (turnStart c s i).2, e.num = i + 1 := by
+  intro e he
+  unfold turnStart at he
+  simp only [List.mem_append] at he
+  rcases he with he | he
+  · exact setOn_num _ _ _ _ e he
+  · exact ballStartEvs_num _ _ _ e he
+
+/-- every event of the ball end proper carries the number of the player who is up afterwards -/
+theorem drainStep_num (c : Cfg) (s : St) : ∀ e ∈ (drainStep c s).2, e.num = (drainStep c s).1.cur + 1 := by
+  simp only [drainStep]
+  split
+  · intro e he; simp at he
+  · split
+    · intro e he
+      rw [ballStart_cur, setOn_cur]
+      simp only [List.mem_append] at he
+      rcases he with he | he
+      · exact setOn_num _ _ _ _ e he
+      · exact ballStartEvs_num _ _ _ e he
+    · split
+      · intro e he; simp at he
+      · intro e he
+        rw [turnStart_cur]
+        exact turnStart_num _ _ _ e he
 
 end MpfVerif.Player
